@@ -1,6 +1,7 @@
 package main
 
 import (
+	"strings"
 	"errors"
 	"sync/atomic"
 	"context"
@@ -509,6 +510,7 @@ func (r *Run) c07Unsent(i int) {
 			return
 		}
 		events = append(events, "query Q1 issued; its only socket write is held and will fail")
+		r.lastInput(strings.Join(events, " | "))
 		// younger queries are issued and stay outstanding (same or different destinations)
 		for j := 0; j < 1+r.rng.Intn(2); j++ {
 			dst := live
@@ -525,6 +527,7 @@ func (r *Run) c07Unsent(i int) {
 			events = append(events, fmt.Sprintf("younger query to %s outstanding with t=%x", dst, q.t))
 			out = append(out, q)
 		}
+		r.lastInput(strings.Join(events, " | ") + " | Q1's write now fails; then the next query is issued")
 		gate <- struct{}{}
 		res1 := <-done1
 		cancel1()
